@@ -740,6 +740,7 @@ def run_job(job: dict) -> JobResult:
                     found[sym] = (ctx, obs, msg)
             if any(ctx.choices) or len(cfg["chunks"]) > 1:
                 res.nontrivial.add(digest((cfg_class(cfg), obs["log"], obs["tx"] if "tx" in obs else None)))
+            return sym is not None  # (lets explore() abandon a configuration whose broken run no longer replays deterministically)
 
         stats = explore(lambda ctx, cfg=cfg: run_one(ctx, cfg), bound=cfg["bound"], check=check, max_runs=60000)
         res.transitions += stats["points"]
